@@ -357,10 +357,9 @@ theorem openIndex_inside (t : Tree) (cfg : FsCfg) (hR : PlainName cfg.root) {x :
     · trivial
     · exact openIndex_inside t cfg hR hx rest (fun n h => hn n (List.mem_cons_of_mem _ h))
 
-theorem openServe_inside (t : Tree) (cfg : FsCfg) (hR : PlainName cfg.root)
-    (hn : ∀ n ∈ cfg.indexNames, ∀ s ∈ Spec.splitSlash n, s ≠ dotdot) {p : Bytes} (hp : servable p = true) :
+theorem openServe_inside_safe (t : Tree) (cfg : FsCfg) (hR : PlainName cfg.root)
+    (hn : ∀ n ∈ cfg.indexNames, ∀ s ∈ Spec.splitSlash n, s ≠ dotdot) {p : Bytes} (hx : Safe cfg.root (cfg.root ++ p)) :
     Served.inside cfg.root (openServe t cfg p) := by
-  have hx := safe_of_servable (R := cfg.root) hR.1 hp
   simp only [openServe]
   have := osOpen_inside t hR hx
   split
@@ -368,12 +367,69 @@ theorem openServe_inside (t : Tree) (cfg : FsCfg) (hR : PlainName cfg.root)
   · exact openIndex_inside t cfg hR hx _ hn
   · trivial
 
+theorem openServe_inside (t : Tree) (cfg : FsCfg) (hR : PlainName cfg.root)
+    (hn : ∀ n ∈ cfg.indexNames, ∀ s ∈ Spec.splitSlash n, s ≠ dotdot) {p : Bytes} (hp : servable p = true) :
+    Served.inside cfg.root (openServe t cfg p) :=
+  openServe_inside_safe t cfg hR hn (safe_of_servable (R := cfg.root) hR.1 hp)
+
+/-! ### the handler's own guard (any rewriter result) -/
+
+theorem containsSub_of_infix (pat : Bytes) : ∀ l : Bytes, pat <:+: l → containsSub pat l = true
+  | [], h => by
+    have : pat = [] := List.infix_nil.mp h
+    simp [containsSub, this]
+  | c :: t, h => by
+    simp only [containsSub, Bool.or_eq_true]
+    rcases List.infix_cons_iff.mp h with h1 | h2
+    · exact Or.inl (List.isPrefixOf_iff_prefix.mpr h1)
+    · exact Or.inr (containsSub_of_infix pat t h2)
+
+/-- a `..` segment shows in the bytes as `/../` or as a trailing `/..` -/
+theorem render_dotdot : ∀ segs : List Bytes, dotdot ∈ segs → DDS <:+: render segs ∨ SDD <:+ render segs
+  | [], h => by simp at h
+  | s :: r, h => by
+    rw [render_cons]
+    rcases List.mem_cons.mp h with e | hr
+    · subst e
+      cases r with
+      | nil => right; exact ⟨[], by simp [render, dotdot]⟩
+      | cons s2 r2 =>
+        left
+        rw [render_cons]
+        exact ⟨[], s2 ++ render r2, by simp [dotdot]⟩
+    · rcases render_dotdot r hr with ⟨a, b, e⟩ | ⟨a, e⟩
+      · left; exact ⟨47 :: s ++ a, b, by rw [← e]; simp⟩
+      · right; exact ⟨47 :: s ++ a, by rw [← e]; simp⟩
+
+theorem safe_of_unrefused {R p : Bytes} (hR : 47 ∉ R) (h : refused p = false) : Safe R (R ++ p) := by
+  simp only [refused, Bool.or_eq_false_iff, Bool.and_eq_false_iff, Bool.not_eq_false', bne_eq_false_iff_eq] at h
+  obtain ⟨⟨h1, h2⟩, h3⟩ := h
+  cases p with
+  | nil => exact ⟨[], by simp [splitSlash_noslash R hR], by simp⟩
+  | cons c body =>
+    have hc : c = 47 := by
+      rcases h3 with h3 | h3
+      · simp at h3
+      · simpa using h3
+    subst hc
+    refine ⟨Spec.splitSlash body, by rw [splitSlash_append, splitSlash_noslash R hR]; rfl, ?_⟩
+    intro s hs e
+    subst e
+    have hr := render_dotdot _ hs
+    rw [render_splitSlash] at hr
+    rcases hr with hi | hsuf
+    · have := containsSub_of_infix _ _ hi
+      have h1' : containsSub DDS (47 :: body) = false := h1
+      rw [h1'] at this; exact absurd this (by simp)
+    · have := List.isSuffixOf_iff_suffix.mpr hsuf
+      rw [h2] at this; exact absurd this (by simp)
+
 /-! ### the tie to the source text -/
 
 /-- The Go functions mirrored by `Hertz.Model.FsPath` still have the statement skeletons the model was written
 against (regenerated from the working tree on every run): the vhost rewriter pushes `/` + host + stripped path
 through `URI.SetPathBytes` and returns `ctx.Path()`; the stripper returns `stripLeadingSlashes(ctx.Path(), n)`;
-`handleRequest` strips trailing slashes, then tests for NUL, then (only with a rewriter) for `/../`. -/
+`handleRequest` strips trailing slashes, then tests for NUL, then (only with a rewriter) for `/../`, a trailing `/..` and a missing leading slash. -/
 theorem model_matches_gen :
     strInvalidHost = Gen.FsPath.strInvalidHost ∧
     Gen.FsPath.vhostRewriter = [
@@ -404,6 +460,8 @@ theorem model_matches_gen :
       "ctx.AbortWithMsg(\"Are you a hacker?\", consts.StatusBadRequest)", "return",
       "if h.pathRewrite != nil",
       "if n := bytes.Index(path, bytestr.StrSlashDotDotSlash); n >= 0",
+      "ctx.AbortWithMsg(\"Internal Server Error\", consts.StatusInternalServerError)", "return",
+      "if bytes.HasSuffix(path, bytestr.StrSlashDotDotSlash[:3]) || (len(path) > 0 && path[0] != '/')",
       "ctx.AbortWithMsg(\"Internal Server Error\", consts.StatusInternalServerError)", "return"] ∧
     Gen.FsPath.setPathBytes = [
       "u.pathOriginal = append(u.pathOriginal[:0], path...)",
